@@ -94,6 +94,17 @@ theorem blockwise_differs :
     var3 [top, bot] 0 1 ≠ var3 [top] 0 1 := by
   decide +kernel
 
+/-- ... and the statistic is NaN-ignoring, so it matters that flagged (corrupt) lines are blanked BEFORE the criterion is
+evaluated: with the garbage of a flagged line still in place its good neighbour's window has another variance than with
+the line blanked (the order `where(mask)` -> scan-motor masking is part of the modelled pipeline; a seeded change of round 16
+swapped it) -/
+theorem blank_before_criterion_matters :
+    let good : List (Option Rat) := [some 10, some 10, some 10]
+    let garbage : List (Option Rat) := [some 900, some 3, some 512]
+    let blank : List (Option Rat) := [none, none, none]
+    var3 [good, garbage] 0 1 ≠ var3 [good, blank] 0 1 ∧ var3 [good, blank] 0 1 = 0 := by
+  decide +kernel
+
 /-- a standard deviation exceeds 2 exactly when the variance exceeds 4 (for the non-negative root) -/
 theorem std_gt_two_iff (v s : Rat) (hs : 0 ≤ s) (hv : s * s = v) : s > 2 ↔ v > 4 := by
   constructor
